@@ -165,6 +165,8 @@ def check_reports(ctx: Ctx, inp) -> None:
                 got_answers = [r for r in answered if r.path.startswith(op["path"] + "/")]
                 tc = by_name.get(label)
                 has_failure = tc is not None and tc.find("failure") is not None
+                if op["drop"] and tc is not None and tc.find("error") is not None:
+                    continue  # dropped connections make the scenario an ERROR, which the handler reports instead of the failures
                 if got_answers and op["status"] >= 500 and not has_failure:
                     ctx.disagree("junit:failing-operation-has-no-failure-element", f"{label} answered {op['status']} {len(got_answers)}x; testcase present: {tc is not None}", input=inp)
                 if op["status"] < 500 and has_failure:
